@@ -8,8 +8,7 @@ CONSTANTS
   MaxOps = 0
   RetryExact = TRUE
   SyncTask = FALSE
-  Dev = {"late-same-peer"}
+  Dev = {"late-same-peer", "stale-link"}
 SPECIFICATION LiveSpec
 VIEW view
-INVARIANTS C16_OneLive C16_Capacity C16_Attribution
-PROPERTIES QueueDrains TasksComplete PersistentRedialled
+PROPERTIES PersistentRedialled
